@@ -19,13 +19,36 @@ def pred_game(rng, kind=None, stratum=None, n=None, maxsize=8):
         # (c) the library's default sigma 25/3 with non-default mu; (d) some mu exactly 0.0 (a falsy number) — next to teams of other sizes
         n = n or rng.randint(2, 5)
         beta = core.DEFAULTS["beta"]
-        var = rng.choice("abcd")
+        var = rng.choice("abcdef")
+        if var == "e":
+            # same-sized teams drawn from the same two or three distinct ratings in different multiplicities
+            kinds_ = [(rng.gauss(25, 6), rng.uniform(1, 9)) for _ in range(rng.randint(2, 3))]
+            sz = rng.randint(2, 4)
+            teams = []
+            for _ in range(n):
+                teams.append([rng.choice(kinds_) for _ in range(sz)])
+            teams[0] = [kinds_[0]] * (sz - 1) + [kinds_[1]]
+            teams[1] = [kinds_[0]] + [kinds_[1]] * (sz - 1)
+            rng.shuffle(teams)
+            sizes = []
+        if var == "f":
+            # two large teams of settled players whose totals differ by a relative 1e-10 .. 1e-8 at |mu| near the edge of the range
+            sz = rng.randint(4, 8)
+            a = [(rng.uniform(15, 20) * beta, beta * 10 ** rng.uniform(-4, -2.5)) for _ in range(sz)]
+            b = list(a)
+            rng.shuffle(b)
+            b[0] = (b[0][0] + sum(m for m, _ in a) * rng.choice([1e-10, 3e-10, 1e-9, 3e-9, -1e-9]), b[0][1])
+            teams = [a, b]
+            sizes = []
         sizes = [rng.randint(1, min(4, maxsize)) for _ in range(n)]
         if len(set(sizes)) == 1:
             sizes[0] = sizes[0] % min(4, maxsize) + 1 if maxsize > 1 else 1
         one = rng.choice([(25.0, 25.0 / 3.0), (rng.gauss(25, 6), rng.uniform(1, 9))])
         sg = rng.choice([25.0 / 3.0, rng.uniform(1, 9)])
-        teams = []
+        if var in "ef":
+            sizes = []
+        else:
+            teams = []
         for k_ in sizes:
             if var == "a":
                 teams.append([one] * k_)
@@ -253,6 +276,12 @@ def pred_history(model, teams, g, h):
             other = type(model)(beta=g["beta"] * 2.5 + 0.5)
             three(other, teams)
             three(type(model)(beta=g["beta"] * 0.5), teams)
+            # ... and shallow copies of THIS model object, re-tuned afterwards (copy.copy shares whatever the object holds by reference)
+            import copy as _copy
+            twin = _copy.copy(model)
+            three(model, teams)
+            twin.beta = g["beta"] * 3.0 + 1.0
+            three(twin, teams)
         elif mode == 2:
             # queries that fail half-way (a later team contains a rating whose sigma is None), made while the players held other values
             for p in flat:
